@@ -189,3 +189,17 @@ def stmt_lines(relpath, cls, func, only_loop_body=False):
         occ = sum(1 for l in lines[fn.lineno - 1:ln - 1] if l.strip() == txt)
         res.append((ln, txt, occ))
     return res
+
+
+def around_iteration():
+    """The statements of the loop body around consume_sample (check_state, update_state, the training
+    functions) must not write a tracked field: then every boundary inside them is balanced."""
+    mod, _ = parse(c01_effects.SRC)
+    out = {}
+    for name in ("check_state", "update_state", "train_proposal", "check_proposal_switch", "check_training"):
+        fn = find_function(mod, name, cls="NestedSampler")
+        bad = [unparse(s).split("\n")[0] for s in ast.walk(fn) if isinstance(s, ast.stmt) and s is not fn
+               and not isinstance(s, (ast.If, ast.For, ast.While, ast.With, ast.Try))
+               and c01_effects._touches_tracked(s)]
+        out[name] = bad
+    return out
